@@ -7,7 +7,12 @@ RULE = ("text: rendered documents, their mutations (deleted/inserted structural 
         "wave 4 (props/C06_ptr.py): pointer offsets of every text scalar against the input slice (parse_slice, from_slice, reused tape), byte-level "
         "mutants of documents and end-of-input classes; binary: an independent lexer re-reads every accepted input and the tape's payload tokens must be "
         "the input's payload lexemes at their positions (all C03 streams + lexeme-level mutants + parse_slice / reused tape with string pointer offsets); "
-        "the four structural checkers (Rust, 2 x Coq, Python) must agree on all token shapes of length <= 4 and on mutated real tapes")
+        "the four structural checkers (Rust, 2 x Coq, Python) must agree on all token shapes of length <= 4 and on mutated real tapes. "
+        "wave 6 (props/C06_size.py): size ladders 0 1 2 3 7 8 9 15 16 17 31 .. 4097 65533 .. 65536, one dimension at a time with the expected tape and "
+        "every scalar offset by construction: nesting depth per container kind and mixed (to 65536), siblings, ghosts, position of the MixedContainer "
+        "marker (dense 1..300, to 1025), unclosed containers / stray closers, scalar / key / header / parameter / string lengths (binary strings to 65535) "
+        "x alignment to the 16-byte blocks and to the end of the input, whitespace and comment runs, tape indices beyond 65535, every binary id, reused "
+        "tapes of every relative length; models on the small rungs, oracles alone beyond")
 TRUSTED = []
 ASSUMPTIONS = []
 
@@ -25,6 +30,10 @@ def run(ctx):
     from props import C06_ptr
     C06_ptr.run(ctx)
     # <<< a_c06
+    # >>> s_c06 (wave 6): size ladders, one dimension at a time, expected tape and scalar offsets by construction
+    from props import C06_size
+    C06_size.run(ctx)
+    # <<< s_c06
 
 
 def search(ctx):
